@@ -395,9 +395,7 @@ impl Prop for C04 {
                 break;
             }
         }
-        if let Err(m) = check_sequence_ids(&conv, &d) {
-            ex.fail("c04-sequence", m);
-        }
+        // (sequence ids are C05's business and are checked there, also for >= 16 MiB responses)
         ex
     }
 }
